@@ -196,6 +196,10 @@ EXC_PARENT = {
     "NotifierNotFound": "Exception",
     "AdaptationError": "TypeError",
     "UnboundLocalError": "Exception",
+    "SystemError": "Exception",
+    "ZeroDivisionError": "Exception",
+    "ImportError": "Exception",
+    "OSError": "Exception",
 }
 
 
